@@ -599,6 +599,65 @@ PROPS["C17"] = dict(
     relevant=lambda e: True,
 )
 
+
+# ------------------------------------------------------------------ chains (Chain.tla): C04 cascade, C07 / C18 across hops
+def chain_fixed(tier):
+    out = []
+    k = 0
+    for depth in (1, 2, 3):
+        for delays in ([0, 0, 0], [1, 0, 2], [3, 3, 3]):
+            for dl in (1000, 6):
+                for script in (["Settle", "Abandon"], ["Abandon"], ["PollOnce", "Abandon"], ["PollOnce", "Deliver", "PollOnce", "Abandon"],
+                               ["Settle", "CompleteLeaf"], ["Settle", "Tick5", "Abandon"], ["Settle"], ["Settle", "CompleteLeaf", "Abandon"]):
+                    steps = [{"a": "Start", "dl": dl, "tr": 4242 + k, "sampled": k % 2 == 0}]
+                    for a in script:
+                        steps.append({"a": "Tick", "d": 5} if a == "Tick5" else {"a": a})
+                    k += 1
+                    out.append(dict(id="fixed:chain:%d" % k, cfg={"depth": depth, "delays": delays[:depth]}, steps=steps))
+    return out
+
+
+def chain_family(rq, rt):
+    return dict(family="chain", trace_module="Trace_Chain", random_quick=rq, random_thorough=rt, fixed=chain_fixed, exports=[])
+
+
+def chain_model(**over):
+    return dict(module="Chain", name="chain", spec="FairSpec", constants=dict(Depth=2, Delays="{0, 1}", Deadline=3, MaxTime=6, **over),
+                quick={}, thorough=dict(Depth=3, MaxTime=8), invariants=["Inv_C07", "Inv_C18", "Inv_AbortCause"],
+                properties=["Live_Cascade"], coverage=False)
+
+
+for _p in ("C04", "C07", "C18"):
+    PROPS[_p]["models"].append(chain_model())
+    PROPS[_p]["families"].append(chain_family(600, 12000))
+    PROPS[_p]["assumptions"] = [a for a in PROPS[_p]["assumptions"] if "not yet bound" not in a and "is not bound" not in a and "not executed by this check" not in a] + [
+        "chains of depth 1-3 are real client -> BaseChannel/Requests -> handler -> client ... compositions over linked instrumented transports "
+        "(values passed in memory, transit delay in virtual time); polls are settle-driven rather than individually scheduled"]
+_r04 = PROPS["C04"]["relevant"]
+PROPS["C04"]["relevant"] = lambda e: has(e, "Cancel", "Abandon")
+_r07 = PROPS["C07"]["relevant"]
+PROPS["C07"]["relevant"] = lambda e: has(e, "Start") or _r07(e)
+_r18 = PROPS["C18"]["relevant"]
+PROPS["C18"]["relevant"] = lambda e: has(e, "Start") or _r18(e)
+
+
+# ------------------------------------------------------------------ thorough-only models: interleaved polls and liveness
+PROPS["C02"]["models"].append(dict(
+    module="MC_Client", name="liveness", spec="FairSpec", tiers=("thorough",),
+    constants=dict(CLIENT_BASE, Callers="{1, 2}", PeerBudget=1, Deadlines="{1, 2}", MaxTime=2, AllowEof=True, AllowHandleDrop=True),
+    quick={}, thorough={}, invariants=["TypeOK"], properties=["Live_C02"], coverage=False, timeout_thorough=2400))
+for _p, _inv in (("C01", "M_C01"), ("C03", "M_C03"), ("C05", "M_C05"), ("C11", "M_C11")):
+    PROPS[_p]["models"].append(dict(
+        module="MC_Client", name="interleaved", tiers=("thorough",),
+        constants=dict(CLIENT_BASE, AtomicPolls=False, Callers="{1, 2}", PeerBudget=1, Deadlines="{2}" if _p != "C05" else "{1, 2}", MaxTime=2),
+        quick={}, thorough={}, invariants=["TypeOK", _inv], coverage=False, timeout_thorough=2400))
+for _p, _inv in (("C04", "M_C04"), ("C06", "M_C06"), ("C08", "M_C08"), ("C12", "M_C12")):
+    PROPS[_p]["models"].append(dict(
+        module="MC_Server", name="interleaved", tiers=("thorough",),
+        constants=dict(SERVER_BASE, AtomicPolls=False, MaxInc=2, Limit=1 if _p in ("C12", "C06") else "<-NoLimit",
+                       FreshIdsOnly=(_p != "C08"), Ids="{1}" if _p == "C08" else "{1, 2}"),
+        quick={}, thorough={}, invariants=["TypeOK", _inv], coverage=False, timeout_thorough=2400))
+
 # ------------------------------------------------------------------ manifest texts
 def _mt(spec, what, design, note_extra=""):
     return dict(
